@@ -31,6 +31,10 @@ FRAGMENTS = [
     '#...diff: length=3\n...', '#...diff:\ndelta 3\n...', '...',
     '#...diff: length=11\ndelta 3\n...\n#..file:\n',
     '#...diff: length=4\n...\n#.change:\n',
+    '#.meta: format=console, length=7\n$ ls\nx', '#..meta: format=psql\nx=# select\ny',
+    '#...meta: format=pycon, length=9\n>>> 1\n1', '#.meta: format=rbcon\nirb> 1\r\n=> 1',
+    '#.meta: format=robotframework\n*** Test ***\r\nx\r\n', '#.meta: format=doscon\nC:\\> dir\nx',
+    '#.meta: format=yaml\na: 1', '#.meta: format=text\nplain', '#.meta: format=html\n<a>',
     '+x...\n', ' retry later...\n', '...\r\n', 'a...b\n', '....\n',
     '#.change: encoding=UTF-8\n', '#..file: encoding=utf_8\n',
     '#...meta: encoding=Utf8, format=json, length=3\n',
